@@ -13,6 +13,7 @@ import (
 
 func sortOperator(d *dataTreeNavigator, context Context, expressionNode *ExpressionNode) (Context, error) {
 	selfExpression := &ExpressionNode{Operation: &Operation{OperationType: selfReferenceOpType}}
+	verifYield("sortOperator.RHS.write")
 	expressionNode.RHS = selfExpression
 	return sortByOperator(d, context, expressionNode)
 }
